@@ -1168,7 +1168,14 @@ int API_FUNC qthread_initialize(void)
 #endif /* ifdef QTHREAD_PERFORMANCE */
     
     qthread_debug(CORE_DETAILS, "calling atexit\n");
-    atexit(qthread_finalize);
+    {
+        static int atexit_registered = 0; /* once per process, not once per incarnation */
+
+        if (!atexit_registered) {
+            atexit_registered = 1;
+            atexit(qthread_finalize);
+        }
+    }
 
     qthread_debug(CORE_DETAILS, "calling component init functions\n");
     qt_barrier_internal_init();
